@@ -102,30 +102,40 @@ def candidatePairs (samples : List String) (peds : List (String × String)) (nid
 def pairNames (pairs : List (Option String × Option String)) : List String :=
   pairs.flatMap (fun p => p.1.toList ++ p.2.toList)
 
-/-- `_choose_samples`.  Repaired code (fix Y): when no pair is left and no `sample_id` was given
-    either (a normal id on a file without any other sample), the `IndexError` the source always
-    meant to raise is raised; its `except StopIteration` could never fire, and the reader went on
-    with no sample at all, filling the rows from INFO. -/
-def chooseSamples (samples : List String) (tags : List PedTag) (sidSel nidSel : Sel) :
-    Except VErr (String × Option String) := do
-  let sid ← resolveSel samples sidSel
-  let nid ← resolveSel samples nidSel
-  for x in [sid, nid] do
-    match truthy x with
-    | some s => if !samples.contains s then throw .indexError
-    | none => pure ()
-  let peds ← parsePedigrees tags
+/-- a given id must name a sample column (`IndexError` otherwise); `None` and "" pass -/
+def selOk (samples : List String) (x : Option String) : Bool :=
+  match truthy x with
+  | some s => samples.contains s
+  | none => true
+
+/-- the body of `_choose_samples` once integer selectors are resolved and the PEDIGREE tags read.
+    Repaired code (fix Y): when no pair is left and no `sample_id` was given either (a normal id on a
+    file without any other sample), the `IndexError` the source always meant to raise is raised; its
+    `except StopIteration` could never fire, and the reader went on with no sample at all, filling
+    the rows from INFO. -/
+def chooseNames (samples : List String) (peds : List (String × String)) (sid nid : Option String) :
+    Except VErr (String × Option String) :=
+  if !(selOk samples sid && selOk samples nid) then .error .indexError else
   let pairs0 := candidatePairs samples peds nid
   let pairs1 := match truthy sid with
     | some s => pairs0.filter (fun p => p.1 == some s)
     | none => pairs0
-  if pairs1.isEmpty && (truthy sid).isNone then throw .indexError
+  if pairs1.isEmpty && (truthy sid).isNone then .error .indexError else
   let pairs := if pairs1.isEmpty then [(sid, (none : Option String))] else pairs1
-  for nm in pairNames pairs do
-    if samples.count nm != 1 then throw .indexError
+  -- `_confirm_unique` for every name in the remaining pairs
+  if !((pairNames pairs).all (fun nm => samples.count nm == 1)) then .error .indexError else
   match pairs.head? with
-  | some (some s, n) => pure (s, n)
-  | _ => throw .indexError
+  | some (some s, n) => .ok (s, n)
+  | _ => .error .indexError
+
+/-- `_choose_samples` -/
+def chooseSamples (samples : List String) (tags : List PedTag) (sidSel nidSel : Sel) :
+    Except VErr (String × Option String) := do
+  let sid ← resolveSel samples sidSel
+  let nid ← resolveSel samples nidSel
+  if !(selOk samples sid && selOk samples nid) then throw .indexError
+  let peds ← parsePedigrees tags
+  chooseNames samples peds sid nid
 
 /-! ## one record -/
 
@@ -326,31 +336,46 @@ structure HetOpts where
   tumorBoost : Bool := false
 deriving Repr, Inhabited
 
+/-- "the normal sample's genotypes are all 0/0 or missing": no row has a non-zero `n_zygosity` -/
+def normalUntyped (rows : List VRow) : Bool :=
+  !(rows.any (fun r => (r.n.map (fun g => g.zyg != 0)).getD false))
+
+/-- the thresholds in force: those asked for, else 0.25 / 0.75 when the normal carries no genotype -/
+def effectiveZygFreq (o : HetOpts) (tb : VTable) : Option (Rat × Rat) :=
+  match o.zygFreq with
+  | some z => some z
+  | none => if tb.paired && normalUntyped tb.rows then some (1/4, 3/4) else none
+
+/-- `zygosity_from_freq` when thresholds are in force (with its `assert`) -/
+def retype (zf : Option (Rat × Rat)) (rows : List VRow) : Except VErr (List VRow) :=
+  match zf with
+  | some (het, hom) =>
+    if 0 ≤ het ∧ het ≤ hom ∧ hom ≤ 1 then .ok (zygosityFromFreq het hom rows)
+    else .error VErr.assertionError
+  | none => .ok rows
+
+/-- "somatic based on T/N genotypes": the tumour shows the variant, the normal is 0/0 -/
+def keepTN (r : VRow) : Bool := !(r.t.zyg != 0 && (r.n.map (fun g => g.zyg == 0)).getD false)
+
+/-- drop the T/N-somatic rows (paired tables), then take the heterozygous subset -/
+def hetStage (paired : Bool) (rows : List VRow) : List VRow :=
+  heterozygous (if paired then rows.filter keepTN else rows)
+
+/-- `varr["alt_freq"] = varr.tumor_boost()` (needs the normal's columns) -/
+def boostStage (boost paired : Bool) (rows : List VRow) : Except VErr (List VRow) :=
+  if boost then
+    if paired then .ok (rows.map (fun r => { r with t := { r.t with altFreq := boostRow r } }))
+    else .error VErr.valueError
+  else .ok rows
+
 /-- `cmdutil.load_het_snps` -/
 def loadHetSnps (samples : List String) (tags : List PedTag) (recs : List Rec) (o : HetOpts) :
     Except VErr VTable := do
   let tb ← readVcf samples tags recs
     { sid := o.sid, nid := o.nid, minDepth := o.minDepth, skipReject := false, skipSomatic := true }
-  let zf : Option (Rat × Rat) :=
-    match o.zygFreq with
-    | some z => some z
-    | none =>
-      if tb.paired && !(tb.rows.any (fun r => match r.n with | some g => g.zyg != 0 | none => false))
-      then some (1/4, 3/4) else none
-  let rows ← (match zf with
-    | some (het, hom) =>
-      if 0 ≤ het ∧ het ≤ hom ∧ hom ≤ 1 then pure (zygosityFromFreq het hom tb.rows)
-      else throw VErr.assertionError
-    | none => pure tb.rows)
-  let rows := if tb.paired then
-      rows.filter (fun r => !(r.t.zyg != 0 && (match r.n with | some g => g.zyg == 0 | none => false)))
-    else rows
-  let rows := heterozygous rows
-  if o.tumorBoost then
-    if !tb.paired then throw VErr.valueError
-    pure { paired := tb.paired, rows := rows.map (fun r => { r with t := { r.t with altFreq := boostRow r } }) }
-  else
-    pure { paired := tb.paired, rows := rows }
+  let rows ← retype (effectiveZygFreq o tb) tb.rows
+  let rows ← boostStage o.tumorBoost tb.paired (hetStage tb.paired rows)
+  pure { paired := tb.paired, rows := rows }
 
 /-! ## BAF -/
 
